@@ -281,6 +281,42 @@ impl World {
             AssetInfo::Token { contract_addr: self.token[a].clone().unwrap().to_string() }
         }
     }
+    /// C12 observation point `Flow{identifier}`
+    fn monitor_flow_query(&self, o: &Obs, mon: &mut Monitor) {
+        // C12 observation point `Flow{identifier}`: the single-flow query answers every listed flow as the
+        // listing (and the raw item) has it, and nothing for an id that was never given out
+        let inc = self.addr[0].clone();
+            let app = &self.app;
+            let q = |id: u64| -> Outcome<im::FlowResponse> {
+                let inc = inc.clone();
+                guarded(move || {
+                    app.wrap().query_wasm_smart(&inc, &im::QueryMsg::Flow { flow_identifier: im::FlowIdentifier::Id(id), start_epoch: None, end_epoch: None })
+                })
+            };
+            for f in o.flows.iter() {
+                let ok = match q(f.id) {
+                    Outcome::Ok(r) => match r.flow {
+                        Some(g) => {
+                            g.flow_id == f.id
+                                && g.flow_asset.amount.u128() == f.amount
+                                && g.claimed_amount.u128() == f.claimed
+                                && g.start_epoch == f.start
+                                && g.end_epoch == f.end
+                                && self.acct_of(&g.flow_creator) == f.creator
+                                && self.asset_of(&g.flow_asset.info) == f.asset
+                        }
+                        None => false,
+                    },
+                    _ => false,
+                };
+                mon.check("C12", "flow_query_agrees_with_listing", ok, || format!("Flow{{Id({})}} does not answer the listed flow {:?}", f.id, (f.id, f.amount, f.claimed, f.start, f.end)));
+            }
+            let unused = o.flows.iter().map(|f| f.id).max().unwrap_or(0) + 1_000_003;
+            if let Outcome::Ok(r) = q(unused) {
+                mon.check("C12", "flow_query_agrees_with_listing", r.flow.is_none(), || format!("Flow{{Id({unused})}} answers a flow that is not listed"));
+            }
+    }
+
     fn asset_of(&self, info: &AssetInfo) -> usize {
         for a in 0..NA {
             if &self.info(a) == info {
@@ -866,6 +902,7 @@ impl Incentive {
         let o = w.observe();
         let line = render("ok", &o);
         self.monitors_state(&o, &[0; NA], 0, mon);
+        w.monitor_flow_query(&o, mon);
         w.prev = o;
         self.w = Some(w);
         line
@@ -1225,6 +1262,7 @@ impl Incentive {
         let taint = w.taint;
         let donated = w.lp_donated;
         // ---------------- monitors ----------------
+        w.monitor_flow_query(&post, mon);
         self.monitors_state(&post, &taint, donated, mon);
         for (id, paid, emission) in epoch_payouts {
             mon.check_tag("C13", "shares_le_one", "claims", paid <= emission, || {
